@@ -63,41 +63,59 @@ def skipAddbsi (f : Bytes) (r : R) : Option R :=
       | some (addbsil, r) => r.skip f ((addbsil + 1) * 8)
     else some r
 
+/-- `if c: <dialnorm group>` -/
+def condGroup (f : Bytes) (r : R) (c : Bool) : Option R := if c then skipGroupNormal f r else some r
+
+/-- `if c: if r.bits(1): r.skip(n)` -/
+def condOptSkip (f : Bytes) (r : R) (c : Bool) (n : Nat) : Option R := if c then optSkip f r n else some r
+
 def skipUnusedNormal (f : Bytes) (r : R) (channelMode : Nat) : Option R := do
   let r ← skipGroupNormal f r
-  let r ← if channelMode = 0 then skipGroupNormal f r else some r
+  let r ← condGroup f r (decide (channelMode = 0))
   let r ← r.skip f 2
   let (timecod1e, r) ← r.bits f 1
   let (timecod2e, r) ← r.bits f 1
-  let r ← if timecod1e ≠ 0 then r.skip f 14 else some r
-  let r ← if timecod2e ≠ 0 then r.skip f 14 else some r
+  let r ← condSkip f r (decide (timecod1e ≠ 0)) 14
+  let r ← condSkip f r (decide (timecod2e ≠ 0)) 14
   skipAddbsi f r
 
-/-- the rest of `_skip_unused_header_bits_enhanced` behind `mixmdate = 0` -/
+/-- `r.skip(5); if r.bits(1): r.skip(8)` (dialnorm, compr) -/
+def skipDialnormCompr (f : Bytes) (r : R) : Option R :=
+  match r.skip f 5 with
+  | none => none
+  | some r => optSkip f r 8
+
+/-- the informational metadata of `_skip_unused_header_bits_enhanced` (behind `infomdate = 1`) -/
+def skipInfoBody (f : Bytes) (r : R) (channelMode srCode : Nat) : Option R := do
+  let r ← r.skip f 5
+  let r ← condSkip f r (decide (channelMode = 2)) 4
+  let r ← condSkip f r (decide (channelMode ≠ 2 ∧ channelMode ≥ 6)) 2
+  let r ← optSkip f r 8
+  let r ← condOptSkip f r (decide (channelMode = 0)) 8
+  condSkip f r (decide (srCode < 3)) 1
+
+/-- `if r.bits(1): <informational metadata>` -/
 def skipInfoEnhanced (f : Bytes) (r : R) (channelMode srCode : Nat) : Option R :=
   match r.bits f 1 with
   | none => none
-  | some (infomdate, r) =>
-    if infomdate ≠ 0 then do
-      let r ← r.skip f 5
-      let r ← if channelMode = 2 then r.skip f 4 else if channelMode ≥ 6 then r.skip f 2 else some r
-      let r ← optSkip f r 8
-      let r ← if channelMode = 0 then optSkip f r 8 else some r
-      if srCode < 3 then r.skip f 1 else some r
-    else some r
+  | some (infomdate, r) => if infomdate ≠ 0 then skipInfoBody f r channelMode srCode else some r
+
+/-- the rest of `_skip_unused_header_bits_enhanced` behind `mixmdate = 0` -/
+def skipAfterMix (f : Bytes) (r : R) (frameType channelMode srCode numblocksCode : Nat) : Option R := do
+  let r ← skipInfoEnhanced f r channelMode srCode
+  let r ← condSkip f r (decide (frameType = 0 ∧ numblocksCode = 3)) 1
+  let r ← condOptSkip f r (decide (frameType = 2 ∧ numblocksCode ≠ 3)) 6
+  skipAddbsi f r
+
+/-- `if c: r.skip(5); if r.bits(1): r.skip(8)` -/
+def condDialnormCompr (f : Bytes) (r : R) (c : Bool) : Option R := if c then skipDialnormCompr f r else some r
 
 def skipUnusedEnhanced (f : Bytes) (r : R) (frameType channelMode srCode numblocksCode : Nat) : Option R := do
-  let r ← r.skip f 5
-  let r ← optSkip f r 8
-  let r ← if channelMode = 0 then (do let r ← r.skip f 5; optSkip f r 8) else some r
-  let r ← if frameType = 1 then optSkip f r 16 else some r
+  let r ← skipDialnormCompr f r
+  let r ← condDialnormCompr f r (decide (channelMode = 0))
+  let r ← condOptSkip f r (decide (frameType = 1)) 16
   let (mixmdate, r) ← r.bits f 1
-  if mixmdate ≠ 0 then some r
-  else do
-    let r ← skipInfoEnhanced f r channelMode srCode
-    let r ← if frameType = 0 ∧ numblocksCode = 3 then r.skip f 1 else some r
-    let r ← if frameType = 2 ∧ numblocksCode ≠ 3 then optSkip f r 6 else some r
-    skipAddbsi f r
+  if mixmdate ≠ 0 then some r else skipAfterMix f r frameType channelMode srCode numblocksCode
 
 /-- the fixed fields of `_read_header_normal` in reading order: (sr_code, frame_size_code, channel_mode, lfe_on);
 `none` is BitReaderError.  (The two `raise AC3Error` between the reads are evaluated in `normalValues`: a file
